@@ -174,12 +174,12 @@ CHECKS = {
  "C16": dict(
    text="Coq theorems (Model/Generic.v, all classes modelled): inversion is complementation for every shape; intersection and union are "
         "exact for every shape - clauses, conjunctions, unions on either side, through the distribution, de-duplication and early exits "
-        "of UnionConstraint.intersect/union - on the ==/!= fragment of the single-valued reading; the union level is proved for any class "
-        "of members with exact member-level meet/join; results hold only clauses of the operands; flags exact. The extras reading at union "
-        "level, the substring operators and allows_all/allows_any are decided by structural correspondence (model = implementation on 3000 "
+        "of UnionConstraint.intersect/union - on the ==/!= fragment of the single-valued reading and on the ==/!= clauses of 'extra' in the multi-valued reading; the union level is proved for any class "
+        "of members with exact member-level meet/join; results hold only clauses of the operands; flags exact. "
+        "The substring operators and allows_all/allows_any are decided by structural correspondence (model = implementation on 3000 "
         "generated pairs x parse/intersect/union/invert/predicates) and the oracle (every alphabet value and every subset of extras as probes).",
    design="8/C16",
-   note=BASE_NOTE + "Partial: substring operators (finding D35), extras reading at union level, containment/overlap answers.",
+   note=BASE_NOTE + "Partial: substring operators (finding D35), containment/overlap answers.",
    technique="Coq proof over an executable model + structural differential correspondence + exhaustive-probe oracle"),
  "C17": dict(
    text="Coq theorems: the projection onto a set of names mentions only those names and holds wherever the marker holds (unsimplified "
